@@ -72,7 +72,10 @@ IMPORTS = {
         ('C17', ['C17.a', 'C17.f'],
          'the transaction list is an htp_list: when its ring buffer grows or wraps wrongly, position i no longer holds transaction i '
          '(c04-1, c04-9)'),
-        ('C16', ['C16.d', 'C16.e'],
+        ('C09', ['C09.c'],
+         'the DATA_OTHER hand-over the statement relies on: the stream state the driver stores and returns after a state function asked for the '
+         'other direction (c04-15: the two DATA_OTHER arms merged, the request side never reports it)'),
+        ('C16', ['C16.d', 'C16.e', 'C16.j'],
          'the documented DATA_OTHER hand-over is part of the statement: the response side yields at the end of the CONNECT transaction exactly when '
          'the request side waits on it, and only a refused CONNECT releases the request side - otherwise the response parser runs ahead of a '
          'request that has not been read yet and attaches its response to a request-less transaction (c04-12)'),
